@@ -641,8 +641,8 @@ def configs(quick):
         # (one name is a prefix of the other and contains the separator of the file names)
         dict(label="files", names=["a", "a_b"], datasets=two + ([] if quick else [(3, "layered")]), perms=[], dblens=[], bases=[],
              ops=FS_OPS, inits=[EMPTY, pre_fs], predepth=2 if quick else 3),
-        dict(label="lengths", names=["a"], datasets=[(3, "stack_sortable"), (2, "even")], perms=[], dblens=[], bases=[],
-             ops=FS_OPS, inits=[EMPTY, {"fs": {"a_good_len2": ("single", 2), "a_good_len3": ("junk",)}, "db": []}], predepth=2 if quick else 99),
+        dict(label="lengths", names=["v1.0"], datasets=[(3, "stack_sortable"), (2, "even")], perms=[], dblens=[], bases=[],
+             ops=FS_OPS, inits=[EMPTY, {"fs": {"v1.0_good_len2": ("single", 2), "v1.0_good_len3": ("junk",)}, "db": []}], predepth=2 if quick else 99),
         dict(label="mixed", names=["sub/my_set"], datasets=[(3, "even")], perms=[P10], dblens=[], bases=[[P10]],
              ops=FS_OPS + ["StoreDfa", "LoadDfa", "MakeFromDb", "DeleteDb"],
              inits=[EMPTY, {"fs": {"sub/my_set_bad_len3": ("single", 1)}, "db": ["10"]}], predepth=2 if quick else 99),
@@ -816,7 +816,7 @@ def replay_graph(ctx, cfg, res, refs):
 # ---- code -> spec: random histories ------------------------------------------------------------------------
 def trace_cfg(quick):
     perms = util.perms_of(3) + ([] if quick else [(1, 3, 0, 2)])
-    return dict(label="trace", names=["a", "a_b", "sub/c"],
+    return dict(label="trace", names=["a", "a_b", "sub/c", "Av.231", "a.b/c.d"],
                 datasets=[(3, "stack_sortable"), (3, "even"), (2, "layered"), (4, "smooth"), (0, "even"), (5, "layered")],
                 perms=perms, dblens=[2, 3], bases=[[P021, P120], [P01, P012, (2, 1, 0)], [P10]],
                 ops=FS_OPS + DB_OPS,
